@@ -208,4 +208,130 @@ theorem transfer_moves (a : AState) (h : AInv a) (src dst : Nat) (hs : src ∈ a
     subst this
     exact (byTerm_ok_iff B' term dst).mpr ⟨c', hl, hdst.1, hdst.2⟩
 
+-- ================================================================================================ convert_variable
+/-- who carries what among old and new variables when no id moved -/
+theorem carried_iff_of_same {s s' : MState} {extra : List Nat} (hl : s'.live = s.live ++ s.heap.length :: extra)
+    (hge : ∀ i ∈ extra, s.heap.length < i) (hc : ∀ i, cmetaOf s' i = cmetaOf s i) (c : String) (i : Nat) :
+    (i ∈ s'.live ∧ cmetaOf s' i = some c) ↔ (i ∈ s.live ∧ cmetaOf s i = some c) := by
+  rw [hc, hl]
+  constructor
+  · rintro ⟨hi, hci⟩
+    refine ⟨?_, hci⟩
+    have hlt : i < s.heap.length := by
+      apply Nat.lt_of_not_le; intro hle; rw [cmetaOf_ge hle] at hci; cases hci
+    rcases List.mem_append.mp hi with h | h
+    · exact h
+    · rcases List.mem_cons.mp h with h | h
+      · omega
+      · have := hge i h; omega
+  · rintro ⟨hi, hci⟩; exact ⟨List.mem_append_left _ hi, hci⟩
+
+/-- `convert_variable(v, …, move_annotations=True)` that converts (factor ≠ 1), `v` carrying `c`: the call returns; the
+    new variable (number `heap.length`, not a variable before) is live and carries `c`; `v` has no id; nobody else's id
+    and no triple changes; `c` and every ontology term that led to `v` now lead to the new variable -/
+theorem convert_moves_id (a : AState) (h : AInv a) (v : Nat) (k : ConvKind) (c : String) (hv : v ∈ a.m.live)
+    (hk : k ≠ .same) (hc : cmetaOf a.m v = some c) :
+    (astep a (.convert v true k)).2 = .ok ∧
+    a.m.heap.length ∈ (astep a (.convert v true k)).1.m.live ∧ a.m.heap.length ∉ a.m.live ∧
+    cmetaOf (astep a (.convert v true k)).1.m a.m.heap.length = some c ∧
+    cmetaOf (astep a (.convert v true k)).1.m v = none ∧
+    (∀ i, i ≠ v → i ≠ a.m.heap.length → cmetaOf (astep a (.convert v true k)).1.m i = cmetaOf a.m i) ∧
+    (astep a (.convert v true k)).1.rdf = a.rdf ∧
+    getVariableByCmetaId (astep a (.convert v true k)).1.m c = some a.m.heap.length ∧
+    (∀ term, byTerm a term = .ok v → byTerm (astep a (.convert v true k)).1 term = .ok a.m.heap.length) := by
+  have hst : astep a (.convert v true k) = convertVariable a v true k := rfl
+  rw [hst]
+  obtain ⟨e1, e2, _, ⟨extra, hl, _⟩, e5⟩ := convertVariable_effect h.inv hv true hk
+  have B := bij_of_inv h.inv
+  have B' : Bij (convertVariable a v true k).1.m := bij_of_inv (by rw [← hst]; exact (ainv_step h _).inv)
+  have hvlt : v < a.m.heap.length := h.inv.reg.liveBound v hv
+  have hcond : (true = true ∧ (cmetaOf a.m v).isSome = true) := ⟨rfl, by rw [hc]; rfl⟩
+  have hnv : a.m.heap.length ∈ (convertVariable a v true k).1.m.live := by rw [hl]; simp
+  have hcn : cmetaOf (convertVariable a v true k).1.m a.m.heap.length = some c := by
+    rw [e5]; unfold idsAfterConvert; rw [if_pos hcond, if_neg (by omega), if_pos rfl, hc]
+  refine ⟨e1, hnv, fun hm => Nat.lt_irrefl _ (h.inv.reg.liveBound _ hm), hcn, ?_, ?_, e2,
+    (B'.lookup_iff c _).mpr ⟨hnv, hcn⟩, ?_⟩
+  · rw [e5]; unfold idsAfterConvert; rw [if_pos hcond, if_pos rfl]
+  · intro i h1 h2; rw [e5]; unfold idsAfterConvert; rw [if_pos hcond, if_neg h1, if_neg h2]
+  · intro term hterm
+    obtain ⟨c', hf, _, hc'⟩ := (byTerm_ok_iff B term v).mp hterm
+    have : c' = c := by rw [hc] at hc'; exact (Option.some.inj hc').symm
+    subst this
+    exact (byTerm_ok_iff B' term _).mpr ⟨c', by rw [e2]; exact hf, hnv, hcn⟩
+
+/-- `convert_variable` with `move_annotations=False`, or of a variable without id: no id moves — every variable keeps
+    what it had, the new variables have none, no triple changes, and every lookup by id or by ontology term answers as
+    before -/
+theorem convert_keeps_id (a : AState) (h : AInv a) (v : Nat) (move : Bool) (k : ConvKind) (hv : v ∈ a.m.live)
+    (hk : k ≠ .same) (hm : move = false ∨ cmetaOf a.m v = none) :
+    (astep a (.convert v move k)).2 = .ok ∧
+    (∀ i, cmetaOf (astep a (.convert v move k)).1.m i = cmetaOf a.m i) ∧
+    (astep a (.convert v move k)).1.rdf = a.rdf ∧
+    (∀ c i, getVariableByCmetaId (astep a (.convert v move k)).1.m c = some i ↔ getVariableByCmetaId a.m c = some i) ∧
+    (∀ term w, byTerm (astep a (.convert v move k)).1 term = .ok w ↔ byTerm a term = .ok w) := by
+  have hst : astep a (.convert v move k) = convertVariable a v move k := rfl
+  rw [hst]
+  obtain ⟨e1, e2, _, ⟨extra, hl, hge⟩, e5⟩ := convertVariable_effect h.inv hv move hk
+  have B := bij_of_inv h.inv
+  have B' : Bij (convertVariable a v move k).1.m := bij_of_inv (by rw [← hst]; exact (ainv_step h _).inv)
+  have hsame : ∀ i, cmetaOf (convertVariable a v move k).1.m i = cmetaOf a.m i := by
+    intro i
+    rw [e5]; unfold idsAfterConvert
+    rw [if_neg]
+    rintro ⟨h1, h2⟩
+    rcases hm with hm | hm
+    · rw [hm] at h1; cases h1
+    · rw [hm] at h2; cases h2
+  have hcar := carried_iff_of_same hl hge hsame
+  refine ⟨e1, hsame, e2, ?_, ?_⟩
+  · intro c i; rw [B'.lookup_iff, B.lookup_iff]; exact hcar c i
+  · intro term w
+    rw [byTerm_ok_iff B', byTerm_ok_iff B, e2]
+    constructor
+    · rintro ⟨c, hf, h1, h2⟩; exact ⟨c, hf, ((hcar c w).mp ⟨h1, h2⟩).1, ((hcar c w).mp ⟨h1, h2⟩).2⟩
+    · rintro ⟨c, hf, h1, h2⟩; exact ⟨c, hf, ((hcar c w).mpr ⟨h1, h2⟩).1, ((hcar c w).mpr ⟨h1, h2⟩).2⟩
+
+/-- a conversion that is not needed (factor 1: the original is returned) or not possible (DimensionalityError) leaves
+    the model as it is -/
+theorem convert_same_noop (a : AState) (v : Nat) (move : Bool) : (astep a (.convert v move .same)).1 = a :=
+  convertVariable_noop (Or.inr rfl)
+
+-- ================================================================================================ loading
+/-- **where loading leaves the ids** (rule of commit df25620: a factor-1 target hands its id to `source.assigned_to`).
+    For every document whose connections resolve (`connect … = ok st`), with `home v0 = v0.assigned_to` (or `v0` when it
+    has none):
+    * the ids after resolution sit exactly on the homes of the variables they were written on — none is lost, none is
+      duplicated, none appears from nowhere;
+    * a variable that was never connected keeps its id (`home v0 = v0`);
+    * otherwise `home v0` is assigned to itself and is either a source proper — and then it is the ULTIMATE source
+      `rootOf st v0`, the variable by which `symbol_generator` replaces every mention of `v0` in the component
+      maths — or the left-hand side of a conversion equation of the flat model. -/
+theorem load_moves_id {reg : Registry} {vt : Load.VarTable} {l : List (Load.VRef × Load.VRef)} {st : Load.CState}
+    (h : Load.connect reg vt l = .ok st) :
+    (∀ w c, Load.cmetaOf st w = some c ↔ ∃ v0, Load.docId vt v0 = some c ∧ Load.home st v0 = w) ∧
+    (∀ v0 c, Load.docId vt v0 = some c → Load.cmetaOf st (Load.home st v0) = some c) ∧
+    (∀ v0, (st.asg v0 = none ∧ Load.home st v0 = v0) ∨
+      (st.asg v0 = some (Load.home st v0) ∧ st.asg (Load.home st v0) = some (Load.home st v0) ∧
+        ((Load.Src vt (Load.home st v0) ∧ Load.rootOf st v0 = Load.home st v0) ∨
+          ∃ e ∈ st.convs, e.target = Load.home st v0))) :=
+  ⟨(Load.connect_cm h).ids, fun v0 c hd => ((Load.connect_cm h).ids _ c).mpr ⟨v0, hd, rfl⟩, Load.home_facts h⟩
+
+/-- the same for a loaded document: every flat variable reports the id that resolution left on it, and a conversion
+    target that received an id is the left-hand side of an equation of the flat model -/
+theorem load_moves_id_flat {doc : Load.Doc} {F : Load.Flat} (h : Load.load doc = .ok F) :
+    ∃ L, Load.prepare doc = .ok L ∧ F = L.flat doc ∧
+      (∀ fv ∈ F.vars, ∀ c, fv.cmeta = some c ↔ ∃ v0, Load.docId L.vt v0 = some c ∧ Load.home L.st v0 = fv.ref) ∧
+      (∀ e ∈ L.st.convs, ∃ q ∈ F.eqs, q.lhs = .var e.target) := by
+  obtain ⟨L, hL, hF⟩ := Load.load_prepare h
+  have hconn := Load.prepare_connect hL
+  refine ⟨L, hL, hF, ?_, ?_⟩
+  · intro fv hfv c
+    subst hF
+    simp only [Load.Loaded.flat, Load.flatVars, List.mem_map] at hfv
+    obtain ⟨⟨r, i⟩, _, rfl⟩ := hfv
+    exact (Load.connect_cm hconn).ids r c
+  · intro e he
+    subst hF
+    exact ⟨e.toEq, by simp only [Load.Loaded.flat]; exact List.mem_append_left _ (List.mem_append_left _ (List.mem_map.mpr ⟨e, he, rfl⟩)), rfl⟩
+
 end Cellml.Props.C13
